@@ -1,3 +1,4 @@
+import SignaloModel.Proofs.SgProofs
 import SignaloModel.Proofs.BridgeConv
 import SignaloModel.Proofs.ConvProofs
 import SignaloModel.Proofs.TableChecks
@@ -6,6 +7,8 @@ import SignaloModel.Proofs.TableChecks
 
 Property theorems for C05 (statements are printed by `#check`, axioms by `#check @Registry.conv_registry_correct
 #check @Registry.delay_registry_correct
+#check @Fir.convL_ramp
+#check @Tables.sg_moments
 #print axioms`;
 `bin/check C05` re-elaborates this file on every run and audits the axiom lists).
 -/
@@ -32,3 +35,5 @@ open SignaloModel
 #print axioms Tables.sg_close
 #print axioms Registry.conv_registry_correct
 #print axioms Registry.delay_registry_correct
+#print axioms Fir.convL_ramp
+#print axioms Tables.sg_moments
